@@ -147,6 +147,9 @@ pub struct Obs {
     pub cookies: Vec<(Vec<u8>, Vec<u8>)>,
     /// looking a name up through the string API in another case (`get("HOST")`, `get_all("HOST")`) finds the same values
     pub lookup_ok: bool,
+    /// beyond the statement (reported as drift only): `get(name)` is the FIRST value of that name and `get_cookie(name)`
+    /// the first cookie of that name
+    pub lookup_first: bool,
 }
 
 pub fn observe(r: &Request) -> Obs {
@@ -162,6 +165,7 @@ pub fn observe(r: &Request) -> Obs {
         }
     }
     let mut lookup_ok = true;
+    let mut lookup_first = true;
     for (k, vals) in &h {
         // lower, UPPER and aLtErNaTiNg spelling of every name through the string API
         let lower = String::from_utf8_lossy(k).into_owned();
@@ -169,17 +173,21 @@ pub fn observe(r: &Request) -> Obs {
         let mixed: String = lower.chars().enumerate().map(|(i, c)| if i % 2 == 1 { c.to_ascii_uppercase() } else { c }).collect();
         for spelling in [&lower, &upper, &mixed] {
             let all: Vec<Vec<u8>> = r.headers.get_all(spelling.as_str()).into_iter().map(|s| s.as_bytes().to_vec()).collect();
-            if &all != vals || r.headers.get(spelling.as_str()).map(|s| s.as_bytes()) != vals.first().map(|v| &v[..]) { lookup_ok = false; }
+            let one = r.headers.get(spelling.as_str()).map(|s| s.as_bytes().to_vec());
+            // names are matched case-insensitively: every spelling sees the same values in order, and `get` one of them
+            if &all != vals || !one.as_ref().map_or(false, |o| vals.contains(o)) { lookup_ok = false; }
+            if one.as_ref() != vals.first() { lookup_first = false; }
         }
     }
     // get_cookie(name) is the first cookie of that name
     let cookies = r.get_cookies();
     for c in &cookies {
         let first = cookies.iter().find(|x| x.name == c.name);
-        if r.get_cookie(&c.name).as_ref() != first { lookup_ok = false; }
+        if r.get_cookie(&c.name).as_ref() != first { lookup_first = false; }
     }
     Obs {
         lookup_ok,
+        lookup_first,
         m: r.method.to_string().into_bytes(),
         p: r.uri.clone().into_bytes(),
         q: r.query.clone().into_bytes(),
@@ -210,7 +218,21 @@ pub fn diff(a: &Obs, b: &Obs) -> Vec<&'static str> {
     if a.port != b.port { d.push("port"); }
     if a.cookies != b.cookies { d.push("cookies"); }
     if a.lookup_ok != b.lookup_ok { d.push("case-insensitive-lookup"); }
+    if a.lookup_first != b.lookup_first { d.push("lookup-first"); }
     d
+}
+
+/// Splits the differing observables into those the property demands (gating) and those that are lenient for this
+/// request or go beyond the statement (drift) - see HttpReqSyntax.tla, Lenient.  `lenient` comes from TLC with the vector.
+fn split_diff(d: Vec<&'static str>, lenient: &[String]) -> (Vec<&'static str>, Vec<&'static str>) {
+    let has = |x: &str| lenient.iter().any(|l| l == x);
+    d.into_iter().partition(|f| match *f {
+        "path" | "query" => !has("target"),
+        "cookies" => !has("cookies"),
+        "origin" | "proxies" => !has("addr"),
+        "lookup-first" | "bytes-consumed" => false,
+        _ => true,
+    })
 }
 
 fn obs_json_text(o: &Obs) -> Value {
@@ -234,6 +256,7 @@ fn exp_from_json(e: &Value) -> Obs {
     }
     Obs {
         lookup_ok: true,
+        lookup_first: true,
         m: s("m"), p: s("p"), q: s("q"), v: s("v"),
         nh: hs.len(), h,
         has_body: e["hasBody"].as_bool().expect("hasBody"),
@@ -306,6 +329,9 @@ pub fn replay(parser: &dyn Parser) {
     let mut trailing_example = Value::Null;
     let mut plans_max = 0usize;
     let mut rich_samples = 0;
+    let mut drifts = 0u64;
+    let mut drift_first: Vec<Value> = vec![];
+    let mut lenient_cases = 0u64;
     for line in stdin_lines() {
         let v: Value = match serde_json::from_str(&line) { Ok(v) => v, Err(_) => continue };
         if let Ok(mut g) = CURRENT_VECTOR.lock() { *g = line.clone(); }
@@ -313,7 +339,10 @@ pub fn replay(parser: &dyn Parser) {
         let peer = peer_addr(std::str::from_utf8(&pct_decode(v["peer"]["ip"].as_str().unwrap())).unwrap(), v["peer"]["port"].as_u64().unwrap() as u16);
         let exp = exp_from_json(&v["exp"]);
         let used = v["exp"]["used"].as_u64().unwrap() as usize;
+        let lenient: Vec<String> = v["exp"]["lenient"].as_array().map(|a| a.iter().filter_map(|x| x.as_str().map(|s| s.to_string())).collect()).unwrap_or_default();
+        let may_reject = lenient.iter().any(|l| l == "target" || l == "addr");
         cases += 1;
+        if !lenient.is_empty() { lenient_cases += 1; }
         set_current(format!("{} (peer {})", show(&wire[..wire.len().min(400)]), peer));
         let mut case_bad = false;
         // at most two reports per case and 40 per run (the counters still see every mismatch)
@@ -341,9 +370,12 @@ pub fn replay(parser: &dyn Parser) {
                     let mut d = diff(&exp, &got);
                     // with one byte per read nothing can be buffered ahead: the parser must have asked for exactly the request
                     if pl.name == "one-byte-per-read" && handed != used { d.push("bytes-consumed"); }
+                    let (d, soft) = split_diff(d, &lenient);
+                    if !soft.is_empty() { drifts += 1; if drift_first.len() < 10 { drift_first.push(json!({"runtime": parser.runtime(), "what": "differs from the specification in a lenient observable", "plan": pl.name, "differs": soft, "wire": show(&wire), "lenient": lenient, "got": obs_json_text(&got)})); } }
                     if !d.is_empty() { mism += 1; case_bad = true; report(&mut first, "parse differs from the denotation", &pl.name, d, obs_json_text(&got)); }
                     if parsed_once.is_none() { parsed_once = Some(req); }
                 }
+                Err(e) if may_reject => { drifts += 1; if drift_first.len() < 10 { drift_first.push(json!({"runtime": parser.runtime(), "what": "request outside the property's grammar was rejected", "plan": pl.name, "differs": ["result"], "wire": show(&wire), "lenient": lenient, "got": e})); } }
                 Err(e) => { mism += 1; case_bad = true; report(&mut first, "parse failed on a well-formed request", &pl.name, vec!["result"], json!(e)); }
             }
         }
@@ -360,6 +392,8 @@ pub fn replay(parser: &dyn Parser) {
                         let got2 = observe(&r2);
                         let mut d = diff(&exp, &got2);
                         for x in diff(&first_obs, &got2) { if !d.contains(&x) { d.push(x); } }
+                        let (d, soft) = split_diff(d, &lenient);
+                        if !soft.is_empty() { drifts += 1; if drift_first.len() < 10 { drift_first.push(json!({"runtime": parser.runtime(), "what": "round trip differs in a lenient observable", "plan": pl.name, "differs": soft, "wire": show(&wire), "lenient": lenient, "got": obs_json_text(&got2)})); } }
                         if !d.is_empty() { mism += 1; case_bad = true; report(&mut first, "serialise + parse is not the same request", &pl.name, d, json!({"serialised": show(&bytes), "reparsed": obs_json_text(&got2)})); }
                         if pl.name == "one-byte-per-read" && handed < bytes.len() {
                             trailing_cases += 1;
@@ -381,7 +415,8 @@ pub fn replay(parser: &dyn Parser) {
     }
     out_line(&json!({"summary": true, "runtime": parser.runtime(), "cases": cases, "parses": parses, "roundtrips": roundtrips,
         "nontrivial": nontrivial, "mismatches": mism, "first": first, "samples": samples, "plans_max": plans_max,
-        "trailing_cases": trailing_cases, "trailing_example": trailing_example}));
+        "trailing_cases": trailing_cases, "trailing_example": trailing_example,
+        "lenient_cases": lenient_cases, "drifts": drifts, "drift_first": drift_first}));
 }
 
 // ------------------------------------------------------------------------------------------------
@@ -395,9 +430,9 @@ const CUSTOM: &[&str] = &["X-A", "X-B", "x-dup", "X-Request-Id", "x_under", "X.D
 /// non-ASCII White_Space: NBSP, NEL (a C1 control), OGHAM SPACE MARK, LINE SEPARATOR, IDEOGRAPHIC SPACE
 const WS_UNI: &[&str] = &["\u{a0}", "\u{85}", "\u{1680}", "\u{2028}", "\u{3000}"];
 /// letters, non-ASCII digits (Arabic-Indic, fullwidth, mathematical), other numerics, length-changing case mappings,
-/// a combining mark, C1 controls, DEL, private use
+/// a combining mark, C1 controls, private use (DEL is no field-vchar: not generated)
 const NONWS_UNI: &[&str] = &["é", "日", "😀", "ß", "İ", "ﬁ", "\u{663}", "\u{ff11}", "\u{1d7d9}", "²", "½", "Ⅷ", "e\u{301}",
-    "\u{80}", "\u{9f}", "\u{7f}", "\u{e000}"];
+    "\u{80}", "\u{9f}", "\u{e000}"];
 
 fn uni_any<'a>(rng: &mut Rng) -> &'a str {
     if rng.chance(1, 3) { *rng.pick(WS_UNI) } else { *rng.pick(NONWS_UNI) }
@@ -676,7 +711,7 @@ pub fn random(parser: &dyn Parser, n: usize, max_body: usize) {
             "runtime": parser.runtime(),
             "head": syms(&g.head), "body": hashed(&g.body),
             "peer": {"ip": syms(g.peer.ip().to_string().as_bytes()), "port": g.peer.port()},
-            "plans": plans.len(), "agree": agree && rt_agree, "errors": errors, "serLen": ser_len,
+            "plans": plans.len(), "agree": agree && rt_agree, "allFailed": observed.iter().all(|o| o.is_none()), "errors": errors, "serLen": ser_len,
             "got": obs_log(got.as_ref()), "rt": obs_log(rt.as_ref()),
         }));
     }
